@@ -13,7 +13,7 @@ import packaging.version
 from vlib.mc import enum as E
 
 PROPERTY = 'C17'
-LEVEL = 'exploration'
+LEVEL = 'model_checking'
 ENGINE = 'C'
 TECHNIQUE = ('stateless bounded model checking: complete enumeration of component tuples, PEP 440 '
              'version pairs and predicate conjunctions against positional '
